@@ -59,6 +59,20 @@ func (pConn *PFCPConn) NewPFCPSession(rseid uint64) (PFCPSession, bool) {
 
 // RemoveSession removes session using lseid.
 func (pConn *PFCPConn) RemoveSession(session PFCPSession) {
+	// Give back what the session holds, whichever way it ends (deletion,
+	// association teardown, report response, failed establishment).
+	if pConn.upf.ippool != nil {
+		if err := releaseAllocatedIPs(pConn.upf.ippool, &session); err != nil {
+			logger.PfcpLog.Debugln("no UE IP released for session", session.localSEID, err)
+		}
+	}
+
+	for _, p := range session.pdrs {
+		if p.UPAllocateFteid {
+			pConn.upf.fteidGenerator.FreeID(p.tunnelTEID)
+		}
+	}
+
 	// Metrics update
 	session.metrics.Delete()
 	pConn.SaveSessions(session.metrics)
